@@ -12,6 +12,8 @@ package main
 import (
 	"fmt"
 	"hash/fnv"
+	"os"
+	"strings"
 
 	"verif/mc"
 	az "verif/ref/aztec"
@@ -91,13 +93,13 @@ type rcase struct {
 	Compact bool
 	Layers  int
 	Text    string
-	Rot     int   `json:",omitempty"`
-	Scale   int   `json:",omitempty"`
-	Quiet   int   `json:",omitempty"`
-	Pos     []int `json:",omitempty"` // damaged codeword indices
-	Val     []int `json:",omitempty"` // the values they are replaced with
-	Nib     []int `json:",omitempty"` // mode message: nibble index, xor value, ...
-	Pad     int   `json:",omitempty"` // highlevel: number of 1-bits appended
+	Rot     int    `json:",omitempty"`
+	Scale   int    `json:",omitempty"`
+	Quiet   int    `json:",omitempty"`
+	Pos     []int  `json:",omitempty"` // damaged codeword indices
+	Val     []int  `json:",omitempty"` // the values they are replaced with
+	Nib     []int  `json:",omitempty"` // mode message: nibble index, xor value, ...
+	Pad     int    `json:",omitempty"` // highlevel: number of 1-bits appended
 	Via     string `json:",omitempty"`
 	Family  string `json:",omitempty"`
 }
@@ -313,21 +315,26 @@ func checkRead(l *mc.Local, sh shape, sym *az.Symbol, tx text, rot, scale, quiet
 
 func main() {
 	chk = mc.New("C11", "fault_enumeration")
-	chk.Rule = "product of all 36 shapes x scripted text family (tables, 5x5 latch edges and 5x5x5 latch histories, every shift, binary shift short/long, punctuation pairs latched and shifted, FLG(0), fills tiny/half/full) x rotation x scale x quiet zone for the reader; the same symbols through decoder.Decode; codeword damage: position families x replacement menu at exactly floor(check/2) errors, every single position, guaranteed-detectable overload; every 1-, 2- (and for full symbols 3-) nibble corruption of the mode message; every script bit string x 0..11 pad ones through HighLevelDecode. A case is non-trivial when the library returned the complete expected (non-empty) text; distinct = distinct (sub-space, shape, text, rotation, scale, quiet, damage pattern)"
+	chk.Rule = "product of all 36 shapes x scripted text family (tables, 5x5 latch edges and 5x5x5 latch histories, every shift, binary shift short/long, punctuation pairs latched and shifted, FLG(0), fills tiny/half/full) x rotation x scale x quiet zone for the reader; the same symbols through decoder.Decode; codeword damage: position families x replacement menu at exactly floor(check/2) errors, every single position; every 1-, 2- (and for full symbols 3-) nibble corruption of the mode message; every script bit string x 0..11 pad ones through HighLevelDecode. A case is non-trivial when the library returned the complete expected (non-empty) text; distinct = distinct (sub-space, shape, text, rotation, scale, quiet, damage pattern)"
 	chk.Assume("reference encoder verif/ref/aztec is trusted (written from ISO/IEC 24778; cross-checked against sample symbols and its own tests)")
 	chk.Assume("conforming symbol = at least 3 check codewords and a data codeword count the mode message can state (<=64 compact, <=2048 full); 'exactly full' = largest scripted text whose stuffed bits leave exactly that minimum")
 	chk.Assume("weaker reading (DESIGN 7): the positive obligation of the reader is a clean image at integer scales 2..5 with a quiet zone of 2 modules; with quiet zone 0 only a different text (never not-found) is a violation")
-	chk.Assume("weaker reading: beyond the correction capacity only guaranteed-detectable overloads are tried (check-word count r odd, t+1 = r-t errors; no codeword lies within distance t), and only a different text is a violation")
+	chk.Assume("the property promises nothing beyond the correction capacity floor(check/2): t+1 damaged codewords are executed and their outcomes counted (observed-only/...), but no outcome is a violation")
 	chk.Assume("binary-shift bytes >= 0x80 are expected as ISO-8859-1 converted to UTF-8 and keyed separately (C11/binary-latin1); the U/S B/S construction is keyed separately (C11/us-bs); FLG(0) is expected as GS (0x1D) and never placed first; inputs that belong to C06 (HighLevelDecode of 0/1 bits, FLG(n) with unregistered ECI) are not generated")
 	drivers()
 	if chk.ReplayFile() != "" {
 		replay()
 		chk.Finish()
 	}
-	runHighLevel()
-	runDecode()
-	runDamage()
-	runModeMessage()
-	runReader()
+	prepare()
+	only := os.Getenv("C11_ONLY")
+	for _, r := range []struct {
+		k string
+		f func()
+	}{{"e", runHighLevel}, {"b", runDecode}, {"c", runDamage}, {"d", runModeMessage}, {"a", runReader}} {
+		if only == "" || strings.Contains(only, r.k) {
+			r.f()
+		}
+	}
 	chk.Finish()
 }
